@@ -294,6 +294,9 @@ func drawOp(t *rapid.T, kind string, e genEnv) Op {
 		op.A = rapid.IntRange(0, e.nAcct+1).Draw(t, "acct")
 	case "recstart":
 		op.A = drawTarget(t, e)
+	case "recget":
+		op.A = rapid.IntRange(0, e.nAcct-1).Draw(t, "acct")
+		drawSecret(t, &op, e, poolRec)
 	case "recend":
 		op.A = rapid.IntRange(0, e.nAcct-1).Draw(t, "acct")
 		drawSecret(t, &op, e, poolRec)
@@ -447,7 +450,9 @@ func drawSnippet(t *rapid.T, name string, e genEnv) []Op {
 		}
 		ops = append(ops, Op{K: "recstart", B: b, A: a})
 		if chance(t, "gap", 30) {
-			ops = append(ops, Op{K: "advance", N: pick(t, "sgap", 5, 50, 4000, 100000)})
+			// around the link's own lifetime too (a few seconds short of it, just past it, half a minute past it)
+			d := c.RecoverDurS
+			ops = append(ops, Op{K: "advance", N: pick(t, "sgap", 5, 50, 4000, 100000, max(1, d-3), d+2, d+30, d+90)})
 		}
 		if chance(t, "nearmiss", 45) {
 			nm := Op{K: "recend", B: b, A: a, SA: a, S: pick(t, "pw", goodPWs...)}
@@ -467,6 +472,9 @@ func drawSnippet(t *rapid.T, name string, e genEnv) []Op {
 				nm.A = a
 			}
 			ops = append(ops, nm)
+		}
+		if chance(t, "openlink", 35) {
+			ops = append(ops, Op{K: "recget", B: b, A: a, Src: "rectok", SA: a})
 		}
 		ops = append(ops, Op{K: "recend", B: b, A: a, Src: "rectok", SA: a, S: pick(t, "pw", goodPWs...)})
 		if chance(t, "relogin", 50) {
@@ -804,6 +812,23 @@ func drawSnippet(t *rapid.T, name string, e genEnv) []Op {
 			ops = append(ops, Op{K: "evstart", B: b, N: 0}, Op{K: "evend", B: b, A: a, N: 0, Src: "evtok", SA: a})
 		}
 		ops = append(ops, Op{K: "totpsetup", B: b}, Op{K: "totpconfirm", B: b, A: a, Src: "totpsess"})
+	case "setupcarry":
+		// an unfinished SMS setup of one account, then (same session, no logout) the password
+		// step of an SMS account: where does the re-sent login code go?
+		if !c.HasSetup("sms") || !c.Has("auth") || e.nAcct < 2 {
+			return nil
+		}
+		v := (a + 1 + rapid.IntRange(0, e.nAcct-2).Draw(t, "victim")) % e.nAcct
+		ops = append(ops, login)
+		if c.EmailAuth {
+			ops = append(ops, Op{K: "evstart", B: b, N: 1}, Op{K: "evend", B: b, A: a, N: 1, Src: "evtok", SA: a})
+		}
+		ops = append(ops, Op{K: "smssetup", B: b, S: pick(t, "number", "+15550009", "+4477000")},
+			Op{K: "login", B: b, A: v, Src: "pw", SA: v})
+		if chance(t, "wait", 60) {
+			ops = append(ops, Op{K: "advance", N: 12})
+		}
+		ops = append(ops, Op{K: "smsresend", B: b, S: "validate"}, Op{K: "smsvalidate", B: b, A: v, Src: pick(t, "codesrc", "smssess", "smsany", "sms"), SA: v})
 	case "enrolreplay":
 		// enrol TOTP with code X, then try X again as a login code while it is still valid
 		// (an enrolment hashes ten recovery codes at the library's fixed bcrypt cost, ~0.5 s:
@@ -846,7 +871,7 @@ func kindEnabled(k string, c harness.Config) bool {
 		return c.Has("register")
 	case "confirm", "reconfirm":
 		return c.Has("confirm")
-	case "recstart", "recend":
+	case "recstart", "recend", "recget":
 		return c.Has("recover")
 	case "logout":
 		return c.Has("logout")
